@@ -327,6 +327,11 @@ class ArgumentParser(ParserDeprecations, ActionsContainer, ArgumentLinking, argp
 
         return cfg, unk
 
+    def _check_value(self, action, value):
+        if action.choices is not None and hasattr(action, "_check_type") and not isinstance(action, _ActionSubCommands):
+            return  # argparse would compare the text with the choices; they are checked after conversion to the type
+        super()._check_value(action, value)
+
     def _parse_optional(self, arg_string):
         subclass_arg = ActionTypeHint.parse_argv_item(arg_string)
         if subclass_arg:
